@@ -729,8 +729,6 @@ mod v_iface_neighbor {
             let mut inner = iface.inner;
             inner.neighbor_cache = c;
             let a = any_arp_frame();
-            // known-finding region, checked by finding_arp_subnet_broadcast_sender
-            kani::assume(!v4_own_subnet_broadcast(&a.spa));
             let eth = EthernetFrame::new_unchecked(&a.frame[..]);
             let reply = inner.process_arp(now, &eth);
             let to_us = a.tpa == OWN4 || a.tpa == OWN4B;
@@ -738,6 +736,7 @@ mod v_iface_neighbor {
                 && to_us
                 && (a.oper == 1 || a.oper == 2)
                 && v4_class_unicast(&a.spa)
+                && !v4_own_subnet_broadcast(&a.spa)
                 && v4_in_own_nets(&a.spa)
                 && a.sha[0] & 1 == 0;
             let spa = IpAddress::Ipv4(a.spa);
@@ -769,22 +768,22 @@ mod v_iface_neighbor {
         }
     }
 
-    // @harness props=C16 cfg=KI4 tier=q to=900 mem=8 unwind=8 opts=nomem covers=5 funcs=InterfaceInner::process_arp;ArpRepr::parse;neighbor::Cache::fill;InterfaceInner::in_same_network;InterfaceInner::has_ip_addr bounds=Ethernet_interface_with_192.168.1.1/24_and_10.0.0.5/8;_all_28_ARP_bytes_symbolic_(any_hardware/protocol_type,_lengths,_operation,_addresses);_neighbor_cache_of_3_slots_holding_2_entries_(fixed_keys_192.168.1.2,_192.168.1.77):_sender_known_or_new,_room_left_with_any_hardware_addresses,_expiries,_silent_until;_any_instant;_sender_=_directed_broadcast_of_an_own_subnet_excluded_(finding_arp_subnet_broadcast_sender)
+    // @harness props=C16 cfg=KI4 tier=q to=900 mem=8 unwind=8 opts=nomem covers=5 funcs=InterfaceInner::process_arp;ArpRepr::parse;neighbor::Cache::fill;InterfaceInner::in_same_network;InterfaceInner::has_ip_addr bounds=Ethernet_interface_with_192.168.1.1/24_and_10.0.0.5/8;_all_28_ARP_bytes_symbolic_(any_hardware/protocol_type,_lengths,_operation,_addresses);_neighbor_cache_of_3_slots_holding_2_entries_(fixed_keys_192.168.1.2,_192.168.1.77):_sender_known_or_new,_room_left_with_any_hardware_addresses,_expiries,_silent_until;_any_instant
     #[kani::proof]
     pub(crate) fn cache_fill_only_validated_arp() {
         arp_step(2);
     }
 
-    // @harness props=C16 cfg=KI4 tier=q to=900 mem=8 unwind=8 opts=nomem covers=5 funcs=InterfaceInner::process_arp;ArpRepr::parse;neighbor::Cache::fill;InterfaceInner::in_same_network;InterfaceInner::has_ip_addr bounds=Ethernet_interface_with_192.168.1.1/24_and_10.0.0.5/8;_all_28_ARP_bytes_symbolic_(any_hardware/protocol_type,_lengths,_operation,_addresses);_neighbor_cache_of_3_slots_holding_3_entries_(fixed_keys_192.168.1.2,_192.168.1.77,_10.1.2.3):_full,_a_new_sender_evicts_the_oldest_with_any_hardware_addresses,_expiries,_silent_until;_any_instant;_sender_=_directed_broadcast_of_an_own_subnet_excluded_(finding_arp_subnet_broadcast_sender)
+    // @harness props=C16 cfg=KI4 tier=q to=900 mem=8 unwind=8 opts=nomem covers=5 funcs=InterfaceInner::process_arp;ArpRepr::parse;neighbor::Cache::fill;InterfaceInner::in_same_network;InterfaceInner::has_ip_addr bounds=Ethernet_interface_with_192.168.1.1/24_and_10.0.0.5/8;_all_28_ARP_bytes_symbolic_(any_hardware/protocol_type,_lengths,_operation,_addresses);_neighbor_cache_of_3_slots_holding_3_entries_(fixed_keys_192.168.1.2,_192.168.1.77,_10.1.2.3):_full,_a_new_sender_evicts_the_oldest_with_any_hardware_addresses,_expiries,_silent_until;_any_instant
     #[kani::proof]
     pub(crate) fn cache_fill_only_validated_arp_full() {
         arp_step(3);
     }
 
     // The directed-broadcast address of an own subnet (192.168.1.255 on 192.168.1.0/24) is not a unicast sender
-    // (`InterfaceInner::is_unicast_v4`, used for IPv4 sources in process_ipv4, says so), yet process_arp tests only the
-    // address class (`x_is_unicast`) and learns it.  Excluded from cache_fill_only_validated_arp, asserted here.
-    // @harness props=C16 cfg=KI4 kind=finding tier=q to=600 mem=8 unwind=8 opts=nomem covers=2 funcs=InterfaceInner::process_arp;InterfaceInner::is_unicast_v4 bounds=ARP_request/reply_for_192.168.1.1_from_sender_protocol_address_192.168.1.255_or_10.255.255.255,_any_sender_hardware_address;_neighbor_cache_holding_2_entries_(fixed_keys)
+    // (`InterfaceInner::is_unicast_v4`, used for IPv4 sources in process_ipv4, says so), and process_arp must not learn it
+    // (it tested only the address class `x_is_unicast` before the fix recorded in known_findings.json).
+    // @harness props=C16 cfg=KI4 tier=q to=600 mem=8 unwind=8 opts=nomem covers=2 funcs=InterfaceInner::process_arp;InterfaceInner::is_unicast_v4 bounds=ARP_request/reply_for_192.168.1.1_from_sender_protocol_address_192.168.1.255_or_10.255.255.255,_any_sender_hardware_address;_neighbor_cache_holding_2_entries_(fixed_keys)
     #[kani::proof]
     pub(crate) fn finding_arp_subnet_broadcast_sender() {
         #[cfg(feature = "proto-ipv4")]
